@@ -46,7 +46,28 @@ def chanstep(prof, quick, thorough):
             "env": {"VKIT_PROFILE": prof}}
 
 
+PUBSUB_FREE = ("free-running concurrent ChanPubSub programs in a synctest bubble: 0-5 subscribers (manual Add/C/Wait loops, SubscribeContext iterators, iterators "
+               "never run) each leaving at a drawn trigger (after n receipts, after the j-th Send call plus k yields, by cancel, by break), 1-3 concurrent senders x 1-6 "
+               "messages, one witness subscriber standing throughout; Gosched perturbation at drawn points; oracles over the recorded history (logical clock): per-message "
+               "receipts == Send return, no duplicates, no stale or invented message, standing subscriptions receive, Send returns after n receipts+Wait calls, one global order "
+               "(witness) extending sender order and real time with every stream a contiguous run, no panic, final count 0, fresh round works; termination via bubble deadlock "
+               "detection + real-time stall watchdog. ")
+
+
+def pubsubfree(prof, quick, thorough):
+    return {"name": "pubsubfree", "test": "TestPubSubFree", "checks": {"quick": quick, "thorough": thorough},
+            "shards": {"quick": 8, "thorough": 16}, "env": {"VKIT_PROFILE": prof}, "stall_sig": prof + "/stall"}
+
+
 CONFIG = {
+    "C06": {
+        "rule": PUBSUB_FREE + "non-trivial = an unsubscribe overlapping a Send in logical time, or >=2 senders whose Sends overlapped; distinct = hash of the generated program.",
+        "jobs": [pubsubfree("C06", 60000, 3000000)],
+    },
+    "C07": {
+        "rule": PUBSUB_FREE + "non-trivial = an unsubscribe overlapping a Send's call/return interval (leaver subscribed before the Send), or an iterator that is never run; distinct = hash of the generated program.",
+        "jobs": [pubsubfree("C07", 60000, 3000000)],
+    },
     "C08": {
         "rule": ("three rapid engines over bigbuff.ChanCaster: (step) model-based stepper in a synctest bubble: register(1-3), receive (select on C/quit), "
                  "deregister (idle, or via quit; during a Send it absorbs one copy), send (launched), add0, positive Add launched during a Send "
